@@ -228,7 +228,7 @@ def run(chk):
 def run_sequences(chk, scratch, vs):
     """Sequences of invocations; between invocations time advances by a chosen amount (the cache file's ages grow)."""
     rng = chk.rng
-    nseq = 400 if chk.thorough else 12
+    nseq = 400 if chk.thorough else 30
     hp = LineProc([harness(), scratch])
     dp = LineProc(buildlib.driver_path())
     bad = dis = None
@@ -236,7 +236,7 @@ def run_sequences(chk, scratch, vs):
         for _ in range(nseq):
             present, age_c, lat, age_n = "0", 0, "", 0
             if rng.random() < 0.7:
-                present, age_c, lat, age_n = "1", rng.choice([10, 3600, W - 600]), rng.choice(["v9.9.9", "v1.0.0", "", "junk"]), rng.choice(
+                present, age_c, lat, age_n = "1", rng.choice([10, 3600, W - 600, W + 500, 2 * W, 5 * W]), rng.choice(["v9.9.9", "v9.9.9", "v1.0.0", "", "junk"]), rng.choice(
                     [W + 500, 10, 2 * W])
             cur = rng.choice(["1.0.0", "v1.0.0", "9.9.9", "bogus"])
             since_notice = None        # simulated seconds since the last printed notice
